@@ -242,7 +242,7 @@ func init() {
 		Rule: "one run = one generated non-terminating/blocking program (busy loops, recursion, blocked channel ops, sleeps, waits, range over open channel; inside map/filter/each/sorted/try/defer/deep calls; goroutine trees to depth 3) " +
 			"with one cancellation (explicit cancel at a tape-chosen scheduler step, or a deadline reached by clock-advance events / idle clock jumps) under one seeded schedule, then a fair schedule for the bounded-liveness oracle; " +
 			"non-trivial = the cancel fired while at least one script task was alive; distinct = distinct hash of the (task, site, event) sequence",
-		Real: []string{"risor.Eval / risor.Call", "vm (eval loop, start/stop, watcher goroutine, Clone, cloneCallAsync)", "object.Chan", "object.Thread", "modules/time sleep", "object.List map/filter/each", "builtins sorted/try/spawn", "context (real, on the bubble's fake clock)"},
+		Real: []string{"risor.Eval / risor.Call / risor.EvalCode(WithVM) / vm.Clone+Call", "modules/filepath walk_dir, builtins call", "vm (eval loop, start/stop, watcher goroutine, Clone, cloneCallAsync)", "object.Chan", "object.Thread", "modules/time sleep", "object.List map/filter/each", "builtins sorted/try/spawn", "context (real, on the bubble's fake clock)"},
 		Stub: []string{"scheduler (sim)", "host builtin tick"},
 		Assumptions: []string{
 			"liveness bound B = (2000 + 16*(max call depth + defers + live tasks at the cancel instant)) scheduler steps per live task under round-robin scheduling; it is deliberately loose (the failure looked for is 'never')",
